@@ -151,7 +151,7 @@ def run(ctx):
     ctx.extra["schedules"] = {"states_with_hist": nst, "maximal": len(hs), "with_access": len(pool)}
     ctx.stage("documents")
     docs = fixtures.readable_fixtures(ctx.workers) + [fixtures.TEMPLATE]
-    gen = gendocs.save_generated(ctx.scratch, 7 if q else 24, ctx.seed, kinds=[k for k in gendocs.KINDS if k != "large"] if q else None)
+    gen = gendocs.save_generated(ctx.scratch, 8 if q else 27, ctx.seed, kinds=[k for k in gendocs.KINDS if k != "large"] if q else None)
     docs += gen
     jobs = []
     k = 0
